@@ -239,7 +239,7 @@ def step (sp : SpecSt) (model : State) (cmd : String) (impl : String) : SpecOut 
     if !sp.txOpen || sp.txClosed then { st := sp, expect := some (ex "err") }
     else { st := { sp with txClosed := true, writeSet := [] }, expect := some (ex "ok") }
   | "capture" => { st := { sp with mergeCrashTaint := none }, expect := none }
-  | "fault" => { st := sp, expect := none }
+  | "fault" | "sfault" => { st := sp, expect := none }
   | "concmerge" => { st := { sp with concMerge := true }, expect := none }
   | "backup" => { st := { sp with backups := (N 1, sp.committed) :: sp.backups }, expect := some (ex (if sp.opened then "ok" else "err")) }
   | "backupobs" =>
